@@ -76,7 +76,7 @@ RANKS = {"laplace": (0, 0), "gradient_squared": (0, 0), "gradient": (0, 1), "div
          "tensor_double_divergence": (2, 0)}
 METHODS = ["central", "forward", "backward"]
 OPS = {
-    "cart": {"laplace": [{}, {"corner_weight": 0.5}, {"corner_weight": 1 / 3}, {"corner_weight": 0.0}], "gradient": [{"method": m} for m in METHODS],
+    "cart": {"laplace": [{}], "gradient": [{"method": m} for m in METHODS],
              "gradient_squared": [{"central": True}, {"central": False}],
              "divergence": [{"method": m} for m in METHODS],
              "vector_gradient": [{"method": m} for m in METHODS], "vector_laplace": [{}],
@@ -94,6 +94,9 @@ OPS = {
     "cyl": {"laplace": [{}], "gradient": [{}], "gradient_squared": [{"central": True}, {"central": False}],
             "divergence": [{}], "vector_gradient": [{}], "vector_laplace": [{}], "tensor_divergence": [{}]},
 }
+# the documented 9-point variants of the 2-d Cartesian Laplacian (matrix leg of this check only; other checks that
+# draw from OPS never see them)
+NINE_POINT = [{"corner_weight": 0.5}, {"corner_weight": 1 / 3}, {"corner_weight": 0.0}]
 SCIPY_OPS = ["laplace", "gradient", "divergence", "vector_gradient", "vector_laplace", "tensor_divergence"]
 AXNAMES = {"cart": "xyz", "polar": "r", "sph": "r", "cyl": "rz"}
 DIM = {"polar": 2, "sph": 3, "cyl": 3}
@@ -472,7 +475,7 @@ def run(ctx):
         else:
             grids = [gen_grid(rng, cls, hole=False), gen_grid(rng, cls, hole=True)] + [gen_grid(rng, cls) for _ in range(n_grids - 2)]
         for op, optl in OPS[cls].items():
-            for opts in optl:
+            for opts in optl + (NINE_POINT if (cls, op) == ("cart", "laplace") else []):
                 for g in grids:
                     if "corner_weight" in opts and len(g["shape"]) != 2:
                         continue  # documented for the 2-d Laplacian only
